@@ -256,6 +256,21 @@ func (s *Sched) Current() *Task {
 	return t
 }
 
+// NodeOfCaller returns the node of the calling goroutine: its own if it is a task, otherwise that
+// of the task holding the token (a goroutine the token holder has just spawned), otherwise SpawnNode.
+func (s *Sched) NodeOfCaller() int {
+	gid := goid()
+	s.mu.Lock()
+	defer s.mu.Unlock()
+	if t := s.byGid[gid]; t != nil {
+		return t.Node
+	}
+	if s.cur != nil {
+		return s.cur.Node
+	}
+	return s.SpawnNode
+}
+
 // Go starts f as a named task; it first runs when the scheduler picks it.
 func (s *Sched) Go(name string, node int, f func()) *Task {
 	ready := make(chan *Task)
